@@ -27,6 +27,15 @@ and what is evaluated / returned for the 2×2 combinations locale × input (`py_
   naive locale, aware input   core `NoLocation` at the input's own wall-clock time → input's zone
   aware locale, aware input   core `TzLocation` at the input                       → context zone
   aware locale, naive input   the input is a wall-clock time of the context zone   → context zone
+"The core" includes its generic layer `impl<L: Localize> OpeningHours<L>` (`OH.Model.Py.iterRange`,
+`firstOfRange`, `nextChange`, `state`), modelled as of /repo dfe1ade: `iter_range` drops the local
+spans the locale's clock skips (`naive(datetime(start)) ≥ end`), merges the same-kind neighbours they
+separated, then maps the bounds with `datetime`.  The binding does not repeat any of this, it runs
+the generic code with its own `PyLocation`; so for a context WITH a zone the results are those of the
+LOCALIZED stream — `py_intervals_eq_core_zone_range/_from`, `py_next_change_eq_core_zone`, stated with
+the zone conversions only (`OH.Spec.Py.zoneRanges`) and for EVERY input, including a naive reading
+inside a gap of the context zone, which is the wall-clock time of no instant (the `_an` theorems say
+nothing about it).  `state` is still evaluated on the wall clock alone (`py_state_eq_core`).
 
 Status: every clause is proved in full for the model.  "No call surfaces a Rust panic" is proved
 relative to the core (`py_no_panic_*`: the binding has no panic site of its own); when the core's
@@ -741,6 +750,140 @@ theorem py_prefer_timezone {Z : Type} (start : DateTimeMaybeAware Z) (stop : Opt
   | some z => rfl
   | none => cases stop <;> rfl
 
+/-! ## A context with a zone: the localized stream, for every input -/
+
+/-- the core's generic `next_change` is consistent with its `iter_from`: whenever the whole window
+can be iterated, the lazily pulled first range is the head of the collected ranges -/
+theorem core_first_is_head {DT : Type} (L : Localize C DT) (e : C.Expr) (h : C.Hol) (a b : DT)
+    (rs : List (Range DT)) (hr : iterRange C L e h a b = .ok rs) :
+    firstOfRange C L e h a b = .ok rs.head? :=
+  firstOfRange_of_iterRange C L e h a b rs hr
+
+/-- without a location nothing is skipped: the core's filter keeps exactly the non-empty ranges
+(so `NoLocation` results are the evaluator's wall-clock ranges, same-kind neighbours merged) -/
+theorem core_no_location_filter (l : List Interval) :
+    filterRanges C (noLocation C) l = .ok (l.filter (fun iv => decide (iv.start < iv.stop))) := by
+  induction l with
+  | nil => rfl
+  | cons iv rest ih =>
+    have hk : keepRange C (noLocation C) iv = .ok (decide (iv.start < iv.stop)) := rfl
+    simp only [filterRanges, ih, hk, List.filter_cons]
+
+/-- **py_intervals_eq_core**, context with a zone, ANY bounds (naive or aware, existing on the zone's
+clock or inside one of its gaps): the evaluator's wall-clock stream over the window of the bounds'
+wall-clock times (table `wall`), LOCALIZED — the spans the zone's clock skips dropped, the same-kind
+neighbours they separated merged, every bound converted with `TzLocation::datetime`, end `None` iff
+it reads 10000-01-01; all items in the zone of the context -/
+theorem py_intervals_eq_core_zone_range (o : PyOH C) (loc : TzLoc C.Zone) (hl : o.locale = .aware loc)
+    (start stop : DateTimeMaybeAware C.Zone) :
+    o.intervals start (some stop)
+      = (match C.iterNaive o.expr o.hol (.tzLocation loc)
+                (min instEnd (wall C (.aware loc) start)) (min instEnd (wall C (.aware loc) stop)) with
+         | .error p => .error p
+         | .ok l =>
+           match zoneRanges C loc.tz l with
+           | .error p => .error p
+           | .ok rs => .ok (rs.map (itemOfAware C))) := by
+  unfold PyOH.intervals
+  rw [hl]
+  dsimp only
+  rw [iterRange_pyAware]
+  cases C.iterNaive o.expr o.hol (.tzLocation loc) (min instEnd (wall C (.aware loc) start))
+      (min instEnd (wall C (.aware loc) stop)) with
+  | error p => rfl
+  | ok l =>
+    dsimp only
+    cases zoneRanges C loc.tz l with
+    | error p => rfl
+    | ok rs => exact mapItems_aware C _ rs
+
+/-- … and without `end`: the window ends where `DATE_END` lands on the zone's clock -/
+theorem py_intervals_eq_core_zone_from (o : PyOH C) (loc : TzLoc C.Zone) (hl : o.locale = .aware loc)
+    (start : DateTimeMaybeAware C.Zone) :
+    o.intervals start none
+      = (match landing C loc.tz instEnd with
+         | .error p => .error p
+         | .ok stopN =>
+           match C.iterNaive o.expr o.hol (.tzLocation loc)
+                  (min instEnd (wall C (.aware loc) start)) (min instEnd stopN) with
+           | .error p => .error p
+           | .ok l =>
+             match zoneRanges C loc.tz l with
+             | .error p => .error p
+             | .ok rs => .ok (rs.map (itemOfAware C))) := by
+  unfold PyOH.intervals
+  rw [hl]
+  dsimp only
+  unfold iterFrom landing
+  rw [(sim_pyAware C loc).datetime]
+  simp only [tzLocation]
+  cases C.tzDatetime loc.tz instEnd with
+  | error p => rfl
+  | ok u =>
+    dsimp only
+    have := iterRange_pyAware C loc o.expr o.hol start (.aware ⟨u, loc.tz⟩)
+    rw [show wall C (.aware loc) (.aware ⟨u, loc.tz⟩) = C.tzNaive loc.tz u from rfl] at this
+    rw [this]
+    show (match (match C.iterNaive o.expr o.hol (.tzLocation loc) (min instEnd (wall C (.aware loc) start))
+                        (min instEnd (C.tzNaive loc.tz u)) with
+                 | Except.error p => Except.error p
+                 | Except.ok l =>
+                   match zoneRanges C loc.tz l with
+                   | Except.error p => Except.error p
+                   | Except.ok rs => Except.ok (rs.map (liftRange DateTimeMaybeAware.aware))) with
+          | Except.error p => Except.error p
+          | Except.ok l => PyOH.mapItems (PyOH.preferTimezone start none) l) = _
+    cases C.iterNaive o.expr o.hol (.tzLocation loc) (min instEnd (wall C (.aware loc) start))
+        (min instEnd (C.tzNaive loc.tz u)) with
+    | error p => rfl
+    | ok l =>
+      dsimp only
+      cases zoneRanges C loc.tz l with
+      | error p => rfl
+      | ok rs => exact mapItems_aware C _ rs
+
+/-- **py_next_change_eq_core**, context with a zone, ANY input: when the open-ended window from the
+input's wall-clock time can be iterated (`l`) and localized (`rs`), `next_change` is the end of the
+first LOCALIZED range (`None` when that end reads 10000-01-01 or later on the zone's clock, or when
+there is no range), in the zone of the context.  In particular a span that the zone's clock skips
+is not a change: see the Paris example below.  (`next_change` itself pulls the stream lazily; it
+returns this value even if the stream panics further on.) -/
+theorem py_next_change_eq_core_zone (o : PyOH C) (loc : TzLoc C.Zone) (hl : o.locale = .aware loc)
+    (t : DateTimeMaybeAware C.Zone) (stopN : Int) (l : List Interval) (rs : List (Range (Aware C.Zone)))
+    (hstop : landing C loc.tz instEnd = .ok stopN)
+    (hstream : C.iterNaive o.expr o.hol (.tzLocation loc)
+                  (min instEnd (wall C (.aware loc) t)) (min instEnd stopN) = .ok l)
+    (hrs : zoneRanges C loc.tz l = .ok rs) :
+    o.nextChange t = .ok (zoneNextChange C loc.tz rs) := by
+  unfold landing at hstop
+  cases hu : C.tzDatetime loc.tz instEnd with
+  | error p => rw [hu] at hstop; cases hstop
+  | ok u =>
+    rw [hu] at hstop
+    cases hstop
+    have hdt : (pyLocalize C (.aware loc)).datetime instEnd = .ok (.aware ⟨u, loc.tz⟩) := by
+      simp only [pyLocalize, tzLocation, hu]
+    have hiter : iterRange C (pyLocalize C (.aware loc)) o.expr o.hol t (.aware ⟨u, loc.tz⟩)
+        = .ok (rs.map (liftRange .aware)) := by
+      rw [iterRange_pyAware]
+      have hw : wall C (.aware loc) (.aware ⟨u, loc.tz⟩) = C.tzNaive loc.tz u := rfl
+      rw [hw, hstream]
+      dsimp only
+      rw [hrs]
+    unfold PyOH.nextChange Py.nextChange
+    rw [hl, hdt]
+    dsimp only
+    rw [firstOfRange_of_iterRange C _ o.expr o.hol t _ _ hiter]
+    cases rs with
+    | nil => rfl
+    | cons r rest =>
+      have hn : (pyLocalize C (.aware loc)).naive (.aware r.stop) = C.tzNaive loc.tz r.stop.utc := rfl
+      simp only [List.map_cons, List.head?, liftRange, zoneNextChange, hn]
+      by_cases hge : C.tzNaive loc.tz r.stop.utc ≥ instEnd
+      · simp only [hge, if_true]
+      · simp only [hge, if_false]
+        cases t <;> rfl
+
 /-! ## normalize, str -/
 
 /-- `normalize()` keeps the context: same holidays and locale, the core's normal form -/
@@ -764,7 +907,7 @@ theorem py_no_panic_state (hC : CoreTotal C) (o : PyOH C) (t : DateTimeMaybeAwar
   unfold PyOH.state Py.state
   split
   · exact ⟨_, rfl⟩
-  · obtain ⟨r, hr⟩ := hC.firstNaive o.expr o.hol (pyLocalize C o.locale).ev ((pyLocalize C o.locale).naive t)
+  · obtain ⟨r, hr⟩ := firstNaive_total C hC o.expr o.hol (pyLocalize C o.locale).ev ((pyLocalize C o.locale).naive t)
       ((pyLocalize C o.locale).naive t + nsPerMin)
     rw [hr]
     cases r <;> exact ⟨_, rfl⟩
@@ -787,13 +930,8 @@ theorem py_no_panic_next_change (hC : CoreTotal C) (o : PyOH C) (t : DateTimeMay
 theorem py_no_panic_intervals (hC : CoreTotal C) (o : PyOH C) (start : DateTimeMaybeAware C.Zone)
     (stop : Option (DateTimeMaybeAware C.Zone)) : ∃ r, o.intervals start stop = .ok r := by
   have hL := pyLocalize_datetime_total C hC o.locale
-  have hrange : ∀ a b, ∃ l, iterRange C (pyLocalize C o.locale) o.expr o.hol a b = .ok l := by
-    intro a b
-    unfold iterRange
-    obtain ⟨l, hl⟩ := hC.iterNaive o.expr o.hol (pyLocalize C o.locale).ev
-      (min instEnd ((pyLocalize C o.locale).naive a)) (min instEnd ((pyLocalize C o.locale).naive b))
-    rw [hl]
-    exact mapRanges_total C _ hL l
+  have hrange : ∀ a b, ∃ l, iterRange C (pyLocalize C o.locale) o.expr o.hol a b = .ok l :=
+    fun a b => iterRange_total C hC _ hL o.expr o.hol a b
   unfold PyOH.intervals
   cases stop with
   | some s =>
@@ -842,10 +980,9 @@ def demoCore : Core where
   coordsZone := fun _ => true
   tzNaive := fun z u => if z then u + 2 * 60 * nsPerMin else u
   tzDatetime := fun z n => .ok (if z then n - 2 * 60 * nsPerMin else n)
-  iterNaive := fun _ _ _ a b => .ok [⟨a, min b (a + 60 * nsPerMin), .open, []⟩]
-  firstNaive := fun _ _ _ a b => .ok (some ⟨a, min b (a + 60 * nsPerMin), .open, []⟩)
+  streamNaive := fun _ _ _ a b => .cons ⟨a, min b (a + 60 * nsPerMin), .open, []⟩ .done
 
-example : CoreTotal demoCore := ⟨fun _ _ => ⟨_, rfl⟩, fun _ _ _ _ _ => ⟨_, rfl⟩, fun _ _ _ _ _ => ⟨_, rfl⟩⟩
+example : CoreTotal demoCore := ⟨fun _ _ => ⟨_, rfl⟩, fun _ _ _ _ _ => ⟨_, rfl⟩⟩
 
 /-- all five arguments given, both flags `None`: the context of rows 2 and 7 -/
 example : ∃ ctx, ctor demoCore ⟨"24/7", some true, some "FR", some (.fin 97 2, .fin (-5) 2), none, none⟩ = .ok ctx
@@ -877,5 +1014,75 @@ example : PyOH.nextChange (C := demoCore) ⟨"x", (0 : Nat), .aware ⟨true, non
 /-- the last interval of an open-ended iteration ends with `None` -/
 example : PyOH.intervals (C := demoCore) ⟨"x", (0 : Nat), .naive⟩ (.naive (instEnd - 30 * nsPerMin)) none
     = .ok [⟨.naive (instEnd - 30 * nsPerMin), none, .open, []⟩] := by rfl
+
+/-! ### the localized stream: Europe/Paris, 2024-03-31 (clocks go from 02:00 to 03:00) -/
+
+/-- 2024-03-31 is day 738976; `dm d m` = minute `m` of day `d` -/
+def dm (d m : Int) : Int := d * nsPerDay + m * nsPerMin
+
+/-- a core with one zone, Europe/Paris around its spring-forward of 2024-03-31: UTC+1 until 01:00 UTC,
+UTC+2 from then on, so the local times 02:00 ≤ t < 03:00 of that day do not exist and `datetime` maps
+them to the first valid instant (01:00 UTC = 03:00 local).  An "expression" is its own wall-clock
+stream. -/
+def parisCore : Core where
+  Expr := Int → Int → NStream
+  Zone := Unit
+  Hol := Unit
+  parse := fun _ => .err
+  display := fun _ => ""
+  normalize := fun e => e
+  debugStr := fun s => s
+  holDefault := ()
+  countryHolidays := fun _ => none
+  coordsHolidays := fun _ => ()
+  coordsZone := fun _ => ()
+  tzNaive := fun _ u => if u < dm 738976 60 then u + 60 * nsPerMin else u + 120 * nsPerMin
+  tzDatetime := fun _ n =>
+    .ok (if n < dm 738976 120 then n - 60 * nsPerMin else if n < dm 738976 180 then dm 738976 60 else n - 120 * nsPerMin)
+  streamNaive := fun e _ _ a b => e a b
+
+/-- `iter_range_naive` of `02:00-03:00` from 02:30 on 2024-03-31 (the first four items) -/
+def oh0203 (tail : NStream) : Int → Int → NStream := fun _ _ =>
+  .cons ⟨dm 738976 150, dm 738976 180, .open, []⟩
+    (.cons ⟨dm 738976 180, dm 738977 120, .closed, []⟩
+      (.cons ⟨dm 738977 120, dm 738977 180, .open, []⟩
+        (.cons ⟨dm 738977 180, dm 738978 120, .closed, []⟩ tail)))
+
+/-- `iter_range_naive` of `02:30-02:45` over 2024-03-31 01:00 … 04:00 -/
+def oh0230 : Int → Int → NStream := fun _ _ =>
+  .cons ⟨dm 738976 60, dm 738976 150, .closed, []⟩
+    (.cons ⟨dm 738976 150, dm 738976 165, .open, ["never on that day"]⟩
+      (.cons ⟨dm 738976 165, dm 738976 240, .closed, []⟩ .done))
+
+/-- **`02:00-03:00`, Europe/Paris, naive 2024-03-31 02:30** (a wall-clock time inside the gap): the
+open span 02:30–03:00 does not exist on that day's clock; `next_change` is the NEXT day's 02:00
+(00:00 UTC, UTC+2) — what CPython and the Rust core answer since /repo dfe1ade … -/
+example : PyOH.nextChange (C := parisCore) ⟨oh0203 .done, (), .aware ⟨(), none⟩⟩ (.naive (dm 738976 150))
+    = .ok (some (.aware ⟨dm 738977 0, ()⟩)) := by rfl
+
+/-- … whereas the same expression read on the wall clock alone (the core's answer before the repair,
+and still `NoLocation`'s) changes at 03:00 of the same day -/
+example : Py.nextChange parisCore (wallClock parisCore ⟨(), none⟩) (oh0203 .done) () (dm 738976 150)
+    = .ok (some (dm 738976 180)) := by rfl
+
+/-- the hypotheses of `py_next_change_eq_core_zone` are satisfiable, and its right-hand side is that
+answer: the localized stream starts with `closed` from 03:00 (the first instant after the gap) to the
+next day's 02:00 -/
+example : ∃ stopN l rs, landing parisCore () instEnd = .ok stopN
+    ∧ parisCore.iterNaive (oh0203 .done) () (.tzLocation ⟨(), none⟩)
+        (min instEnd (wall parisCore (.aware ⟨(), none⟩) (.naive (dm 738976 150)))) (min instEnd stopN) = .ok l
+    ∧ zoneRanges parisCore () l = .ok rs
+    ∧ rs.head? = some ⟨⟨dm 738976 60, ()⟩, ⟨dm 738977 0, ()⟩, .closed, []⟩
+    ∧ zoneNextChange parisCore () rs = some (.aware ⟨dm 738977 0, ()⟩) :=
+  ⟨_, _, _, rfl, rfl, rfl, rfl, rfl⟩
+
+/-- `next_change` pulls the stream lazily: a panic of the evaluator further on does not surface -/
+example : PyOH.nextChange (C := parisCore) ⟨oh0203 (.panic "later"), (), .aware ⟨(), none⟩⟩ (.naive (dm 738976 150))
+    = .ok (some (.aware ⟨dm 738977 0, ()⟩)) := by rfl
+
+/-- **`02:30-02:45`, Europe/Paris, 2024-03-31 01:00 … 04:00**: the open span is skipped by the clock,
+its two closed neighbours are one interval (00:00 UTC … 02:00 UTC) — not `closed, open (empty), closed` -/
+example : PyOH.intervals (C := parisCore) ⟨oh0230, (), .aware ⟨(), none⟩⟩ (.naive (dm 738976 60)) (some (.naive (dm 738976 240)))
+    = .ok [⟨.aware ⟨dm 738976 0, ()⟩, some (.aware ⟨dm 738976 120, ()⟩), .closed, []⟩] := by rfl
 
 end OH.Props.C12
